@@ -13,8 +13,6 @@ namespace {
 
 static const auto g_processStartTime = std::chrono::steady_clock::now();
 
-static const QChar DEL_MARKER = QChar(0x200B);
-
 class Token
 {
 public:
@@ -22,6 +20,15 @@ public:
     virtual size_t estimatedLength() const = 0;
     virtual bool checkCondition(const LogMessage &) const { return true; }
     virtual void appendToString(const LogMessage &lmsg, QString &dest) const = 0;
+
+    // removeAfter: number of characters the next literal has to drop, requested by a missing
+    // optional attribute. It is handed from token to token next to the output string, never
+    // inside it, so that no character of a value can be mistaken for it
+    virtual void appendToString(const LogMessage &lmsg, QString &dest, int &removeAfter) const
+    {
+        removeAfter = 0;
+        appendToString(lmsg, dest);
+    }
 };
 
 class ConditionToken : public Token
@@ -235,19 +242,18 @@ public:
 
     void appendToString(const LogMessage &, QString &dest) const override
     {
-        int removeCount = 0;
-        while (!dest.isEmpty() && dest.at(dest.size() - 1) == DEL_MARKER) {
-            dest.chop(1);
-            removeCount++;
+        dest.append(m_text);
+    }
+
+    void appendToString(const LogMessage &, QString &dest, int &removeAfter) const override
+    {
+        if (removeAfter < m_text.size()) {
+            dest.append(m_text.mid(removeAfter));
         }
 
-        if (removeCount > 0 && removeCount < m_text.size()) {
-            dest.append(m_text.mid(removeCount));
-        } else if (removeCount == 0) {
-            dest.append(m_text);
-        }
+        // If removeAfter >= m_text.size(), append nothing
 
-        // If removeCount >= m_text.size(), append nothing
+        removeAfter = 0;
     }
 
     size_t estimatedLength() const override { return m_text.size(); }
@@ -741,25 +747,31 @@ public:
 
     void appendToString(const LogMessage &lmsg, QString &dest) const override
     {
+        int removeAfter = 0;
+        appendToString(lmsg, dest, removeAfter);
+    }
+
+    void appendToString(const LogMessage &lmsg, QString &dest, int &removeAfter) const override
+    {
         if (lmsg.hasAttribute(m_attributeName)) {
+            removeAfter = 0;
             dest.append(applyPadding(lmsg.attribute(m_attributeName).toString()));
             return;
         }
 
         if (!m_optional) {
+            removeAfter = 0;
             QString value = QStringLiteral("%{") + m_attributeName + QStringLiteral("}");
             dest.append(applyPadding(value));
             return;
         }
 
-        // Optional attribute not found: remove characters before and add ZWSP markers for removeAfter
+        // Optional attribute not found: remove characters before and tell the next literal how
+        // many characters to drop
         if (m_removeBefore > 0 && dest.size() >= m_removeBefore) {
             dest.chop(m_removeBefore);
         }
-        // Append ZWSP markers to signal how many chars to remove from next token
-        for (int i = 0; i < m_removeAfter; ++i) {
-            dest.append(DEL_MARKER);
-        }
+        removeAfter += m_removeAfter;
     }
 
     size_t estimatedLength() const override
@@ -948,13 +960,12 @@ public:
         QString result;
         result.reserve(estimatedLength);
 
+        int removeAfter = 0;
         for (const auto &token : std::as_const(m_tokens)) {
             if (token->checkCondition(lmsg)) {
-                token->appendToString(lmsg, result);
+                token->appendToString(lmsg, result, removeAfter);
             }
         }
-
-        result.remove(DEL_MARKER);
 
         return result;
     }
